@@ -46,6 +46,11 @@ CLAIMED = {
             "list element, version) of documents produced by toJson; each mutant is fed to Factory.fromJson and TLC "
             "judges the outcome with HgParse!Parse: invalid documents must raise, valid ones must load and re-serialise "
             "to ToDoc(FromDoc(mutant)), unmutated documents must be accepted."),
+    "C17": ("TLC model of the wrapper state machine + trace validation of wrapper/call histories and expression quantities",
+            "spec/HgUserFcn.tla is model-checked for all application orders and call sequences (OrderIndependent, OneName, "
+            "Transparent); recorded histories of serializable/cached/named and of calls with repeated/changing scalar and "
+            "array arguments are validated by TLC (HgUserFcnTrace); aggregators built from a string expression and from the "
+            "equivalent function receive the same dict / attribute / scalar records and are judged against HgTree!EvalE."),
     "C16": ("trace validation of shared-node detection (TLC, SharedFillable)",
             "HgTree!SharedFillable decides from the descriptor whether one object sits at two installed positions; filling "
             "such a tree must raise with no state change, on first and later fills, row-wise and vectorised; shared "
